@@ -517,6 +517,9 @@ class ErrValue(Obj):
     def m_view(self, I, args, n):
         return self
 
+    def m_equals(self, I, args, n):
+        return I.ctx.fresh("same_error_value", "bool")
+
 
 class ErrOutput(Obj):
     cls = "TSOutputView(error)"
@@ -1676,3 +1679,88 @@ class MapNodeStop(MapKernel):
 
 
 KERNELS.append(MapNodeStop)
+
+
+# ------------------------------------------------------------------ try_except_node.cpp write_try_except_error (C15)
+
+
+class TryErrTarget(Obj):
+    cls = "TSOutputView(exception)"
+
+    def __init__(self, k, where):
+        Obj.__init__(self, name="exception_output")
+        self.k, self.where = k, where
+
+    def m_begin_mutation(self, I, args, n):
+        return ErrChildMutation(self.k, z3.IntVal(self.where), I.ctx.rv(args[0]))
+
+    def m_valid(self, I, args, n):
+        return I.ctx.fresh("exception_output_valid", "bool")
+
+    def m_value(self, I, args, n):
+        return ErrCurrent()
+
+    def m_as_bundle(self, I, args, n):
+        k = self.k
+        b = Obj("bundle", "bundle")
+        b.m_field = lambda I_, a, n_: TryErrTarget(k, 1)
+        return b
+
+
+class WriteTryExceptError(WriteMapError):
+    tu = "src/hgraph/runtime/try_except_node.cpp"
+    name = "try_except_node.cpp:write_try_except_error"
+    fn_name = "write_try_except_error"
+    filter = "write_try_except_error"
+    property_ids = ("C15",)
+    title = "write_try_except_error: exactly one error tick in this cycle on the exception output, carrying the message"
+
+    def setup(self, I):
+        ctx = I.ctx
+        self.T = z3.Int("evaluation_time")
+        self.msg = z3.Int("error_msg")
+        self.key = z3.IntVal(0)
+        self.failed_id, self.view_id = z3.Int("failed_node_id"), z3.Int("try_except_node_id")
+        self.failed_valid = z3.Bool("failed_node_valid")
+        self.is_tsb, self.out_schema_null = z3.Bool("output_is_a_bundle"), z3.Bool("output_schema_null")
+        g = Obj("ghost", "tg")
+        self.g = g
+        ctx.store[(g.oid, "w_count")] = z3.IntVal(0)
+        for nm in ("w_key", "w_t", "w_msg", "w_node", "dict_mut_t", "out_t"):
+            ctx.store[(g.oid, nm)] = z3.IntVal(-9)
+        k = self
+        view = NodeRef(self.view_id, z3.BoolVal(True))
+        sch = Obj("NodeTypeMetaData", "schema")
+        osch = Obj("TSValueTypeMetaData", "output_schema")
+        ctx.store[(osch.oid, "kind")] = z3.If(self.is_tsb, z3.IntVal(6), z3.IntVal(1))
+        ctx.store[(sch.oid, "output_schema")] = Ptr(osch, self.out_schema_null)
+        ctx.store[(sch.oid, "error_capture")] = Wild(name="options")
+        self.schema_null = z3.Bool("schema_null")
+        view.m_schema = lambda I_, a, n_: Ptr(sch, k.schema_null)
+
+        def output(I_, a, n_):
+            I_.ctx.write(Loc((g.oid, "out_t")), I_.ctx.rv(a[0]))
+            return TryErrTarget(k, 0)
+        view.m_output = output
+        self.view = view
+        return None, {"view": view, "failed_node": NodeRef(self.failed_id, self.failed_valid), "evaluation_time": self.T,
+                      "error_msg": self.msg}
+
+    def enum_const(self, I, ref):
+        if ref.get("name") == "TSB":
+            return z3.IntVal(6)
+        raise Gap("enum constant %s" % ref.get("name"))
+
+    def post(self, I, ret):
+        ctx = I.ctx
+        g = lambda nm: ctx.store[(self.g.oid, nm)]
+        bundle = z3.And(z3.Not(self.schema_null), z3.Not(self.out_schema_null), self.is_tsb)
+        ctx.oblige("ensures.exactly-one-error-tick-in-this-cycle-on-the-exception-output-with-the-message[C15 exactly one error tick in "
+                   "that same cycle carrying the exception's message, also when the same error repeats]",
+                   z3.And(g("w_count") == 1, g("w_t") == self.T, g("w_msg") == self.msg, g("out_t") == self.T,
+                          g("w_key") == z3.If(bundle, 1, 0)), kind="post-normal")
+        ctx.oblige("ensures.the-error-names-the-failing-node-when-known[C14/C15 naming the failing node]",
+                   g("w_node") == z3.If(self.failed_valid, self.failed_id, self.view_id), kind="post-normal")
+
+
+KERNELS.append(WriteTryExceptError)
